@@ -6,7 +6,7 @@ import sympy as sp
 
 from ..spec import Checker, FR, obj_summary
 from ..sigmodel import make_signal, N, NCHAN, CF, BW, SR
-from ..values import Num, StrV, ObjV, TupleV, SliceV, NONE, ListV, Hz
+from ..values import Num, StrV, ObjV, TupleV, SliceV, NONE, ListV, Hz, ExtV
 from ..symeval import Raised
 from ..values import Unsupported
 
@@ -87,6 +87,52 @@ def check(run, prog):
             ck.same("R1", gfreq.where, f"labels within the band [{al}, {parity}]", "min_freq <= label_0 and label_{nchan-1} <= max_freq (derived)",
                     lo.is_number and hi.is_number and lo >= 0 and hi >= 0, found=f"(label_0-min)/bw = {lo}, (max-label_last)/bw = {hi}",
                     nontrivial=True)
+    # every radio class reaches the same band model through its OWN constructor (the alignment has to be handed up the chain
+    # of constructors), and an alignment assigned after construction goes through the same normalisation
+    i = sp.Symbol("i", integer=True, nonnegative=True)
+    n_cls = 0
+    for cname in ("BasebandSignal", "DualPolarizationSignal", "IntensitySignal", "FullStokesSignal", "RadioSignal"):
+        ci = prog.cls(cname)
+        for parity, nchan in (("even", 2 * m), ("odd", 2 * m + 1)):
+            for al in ("bottom", "top"):
+                if cname != "RadioSignal" and parity == "odd" and al == "top" and run.tier == "quick":
+                    continue
+                shape = [N, nchan] + ([sp.Integer(2)] if ci.is_subclass_of("DualPolarizationSignal") else [sp.Integer(4)] if ci.is_subclass_of("FullStokesSignal") else [])
+                bb = ci.is_subclass_of("BasebandSignal")
+                data = Num(sp.Symbol("D"), kind="array", shape=tuple(shape), tag="data", backend="numpy", dtype=ExtV("numpy.complex128" if bb else "numpy.float64"))
+                kw = {"sample_rate": Num(SR * Hz, kind="quantity"), "center_freq": Num(CF * Hz, kind="quantity")}
+                if not bb:
+                    kw["chan_bw"] = Num(BW * Hz, kind="quantity")
+                if ci.is_subclass_of("DualPolarizationSignal"):
+                    kw["pol_type"] = StrV("linear")
+                bw = SR if bb else BW
+                a = A[al] if parity == "even" else sp.Rational(1, 2)
+                for mode in ("constructor", "assigned afterwards"):
+                    if mode == "constructor" and cname == "RadioSignal":
+                        continue          # covered above
+                    ev = ck.evaluator()
+                    kw2 = dict(kw, freq_align=StrV(al if mode == "constructor" else "center"))
+                    tag = f"{cname}(..., freq_align='{al}' {'' if mode == 'constructor' else '[' + mode + '] '}) with {parity} nchan"
+
+                    def build():
+                        z_ = ev.construct(ci, [data], kw2, FR())
+                        if mode != "constructor":
+                            ev.setattr(z_, "freq_align", StrV(al), FR())
+                        return z_
+                    z = ck.attempt("R2", setter.where, tag, "a valid alignment is accepted", build, ev=ev)
+                    if z is None:
+                        continue
+                    n_cls += 1
+                    stored = z.attrs.get("_freq_align")
+                    ck.same("R2", setter.where, tag, "stored alignment is the requested one for even nchan and forced to 'center' for odd nchan",
+                            isinstance(stored, StrV) and stored.s == (al if parity == "even" else "center"), found=repr(stored),
+                            expected=al if parity == "even" else "center", nontrivial=True)
+                    lab = labels(ck, ev, z, "R1", gfreq.where, f"channel_freqs evaluates ({tag})")
+                    if lab is None:
+                        continue
+                    f, n = lab
+                    ck.eq("R1", gfreq.where, f"channel_freqs [{tag}]", "label_i == center_freq + chan_bw*(i + a - nchan/2)", f(i), (CF + bw * (i + a - nchan / 2)) * Hz)
+    run.floor("R2", "class / alignment / parity / mode combinations built through the classes' own constructors and setters", n_cls, 20)
     # invalid alignment is refused with ValueError
     for bad in (StrV("middle"), StrV("Center"), NONE):
         ev = ck.evaluator()
